@@ -669,11 +669,12 @@ fn c18_attrs(_ctx: &Ctx, r: &mut Report) {
         });
     }
     // trait methods: attributes mirrored onto the delegating methods, in order
-    for mattrs in ["", "#[cfg(all())]", "#[doc = \"m\"] #[cfg(feature = \"x\")]"] {
+    for mattrs in ["", "#[cfg(all())]", "#[doc = \"m\"] #[cfg(feature = \"x\")]", "#[cfg(feature = \"x\")] #[doc = \"m\"] #[inline]"] {
+      for tattr in ["", "TrImpl, delegate_by = DelegateTr", "TrImpl, delegate_by = ref", "delegate_by = ref"] {
         let item = format!("#[doc = \"t\"] trait Tr {{ {} fn f(&self, a: i32) -> i32; fn g(&self); }}", mattrs);
-        let input = format!("#[entrait()] {}", item);
+        let input = format!("#[entrait({})] {}", tattr, item);
         r.guarded(&input, |r| {
-            let out = expand(Variant::Entrait, "", &item);
+            let out = expand(Variant::Entrait, tattr, &item);
             if let Some(e) = compile_error_of(&out) {
                 r.fail("unexpected-error", &input, e);
                 return;
@@ -704,10 +705,23 @@ fn c18_attrs(_ctx: &Ctx, r: &mut Report) {
                 if !mm[1].attrs.is_empty() || !tm[1].attrs.is_empty() {
                     r.fail("attribute-leak", &input, "attributes of one method leaked onto another".into());
                 }
+                // the generated delegation-target trait restates the methods with the same attributes
+                if tattr.starts_with("TrImpl") {
+                    match find_trait(&file.items, "TrImpl") {
+                        Some(target) => {
+                            let xm = trait_methods(target);
+                            if xm.len() != 2 || attr_strings(&xm[0].attrs) != want || !xm[1].attrs.is_empty() {
+                                r.fail("target-trait-method-attributes", &input, format!("TrImpl::f carries {:?}, the trait method {:?}", xm.get(0).map(|m| attr_strings(&m.attrs)), want));
+                            }
+                        }
+                        None => r.fail("shape", &input, "TrImpl missing".into()),
+                    }
+                }
             } else {
                 r.fail("shape", &input, "trait or impl missing".into());
             }
         });
+      }
     }
     // cfg-disabled functions of a module / impl block must not leave a dangling trait method behind
     for (attr, item, tname) in [
